@@ -14,9 +14,9 @@ CONDS = ["true", "false", "K==1", "K%2==0", "K<2", "p==1"]
 D_COND = 2
 WHILE_N = [0, 1, 2, 3]
 D_N = 2
-BOUNDS = [(0, 0), (0, 2), (1, 3), (2, 0)]
+BOUNDS = [(0, 0), (0, 2), (1, 3), (2, 0), ("e", "e")]     # ("e","e"): lo = `p - p`, hi = `g(1)` (=2, evaluated once)
 D_BOUNDS = (0, 2)
-STEPS = [None, 1, 2]
+STEPS = [None, 1, 2, "var", "expr", "call"]     # var: `st` (=1); expr: `st + 1`; call: `g(0)` (=1, logs each evaluation)
 COUNTERS = ["anon", "fresh", "collide"]
 D_COUNTER = "fresh"
 FAULTS = ["assert", "div", "idx"]
@@ -231,7 +231,21 @@ def stmts(ctx, s, counters, K, depth, can_return=True):
             name = f"c{min(depth, 5)}"
             cs, K2 = (counters if name in counters else counters + [name]), name
         body = block(ctx, x, cs, K2, depth + 1, can_return)
-        return [("from", ("int", lo), ("int", hi), incl, ("int", step) if step is not None else None, name, body)]
+        if step is None:
+            st = None
+        elif step == "var":
+            st = var("st")
+        elif step == "expr":
+            st = ("bin", "+", var("st"), ("int", 1))
+        elif step == "call":
+            st = ("call", var("g"), [("int", 0)])
+        else:
+            st = ("int", step)
+        if lo == "e":
+            lo_e, hi_e = ("bin", "-", var("p"), var("p")), ("call", var("g"), [("int", 1)])
+        else:
+            lo_e, hi_e = ("int", lo), ("int", hi)
+        return [("from", lo_e, hi_e, incl, st, name, body)]
     raise ValueError(s)
 
 
@@ -253,7 +267,7 @@ def function_program(shape, variant="fn"):
     variant: 'fn' (called with p = 0, 1, 2), 'module' (module level, p = 1), 'rec' (one level of recursion)."""
     ctx = Ctx()
     pre = [("assign", "lst", ("list", [("int", 10), ("int", 20)]), "[int...]", ()),
-           ("assign", "acc", ("int", 0), None, ())]
+           ("assign", "acc", ("int", 0), None, ()), ("assign", "st", ("int", 1), None, ())]
     pre += [("assign", c, ("int", 7), None, ()) for c in COLL]
     counters0 = ["p", "acc"]
     if variant == "module":
